@@ -3,6 +3,8 @@ CONSTANTS
   RECENT = 3
   NoBlock = NoBlock
   NoTx = NoTx
+  VarBase = 2
+  BeyondHeadStops = FALSE
   MaxNew = 5
   MaxSib = 2
   MaxHeight = 5
